@@ -326,7 +326,8 @@ Definition dispatch (t : table) (st : settings) (arg : str) (next : option str) 
   | Some argRest => Some (parse_long_option t st argRest next)
   | None =>
     match arg with
-    | 45 :: ((_ :: _) as optchars) => Some (parse_short_options (length optchars) t st optchars next)
+    | c :: ((_ :: _) as optchars) =>      (* strings.HasPrefix(arg, "-") && len(arg) > 1 *)
+      if c =? 45 then Some (parse_short_options (length optchars) t st optchars next) else None
     | _ => None
     end
   end.
